@@ -38,7 +38,7 @@ func (c10) Components() map[string][]string {
 	return map[string][]string{"real": {"snes.ROM BusReader/BusWriter, alwaysError, bytes.Reader underneath (instrumented copy)"}, "stub": {"the client side of the streams: chunking policies and io/bufio consumers driven by the scenario"}}
 }
 
-var c10Sizes = []int{0x8000, 0x10000, 0x10000, 0x18000 + 1, 0x20000, 0x28000 - 1, 0x40000, 0x100000}
+var c10Sizes = []int{0x8000, 0x10000, 0x10000, 0x18000 + 1, 0x20000, 0x28000 - 1, 0x40000, 0x100000, 0x8200, 0x10200, 0x20200}
 
 func (c10) Gen(r *sim.Rand, tier string, run uint64) *sim.Scenario {
 	sc := &sim.Scenario{Cfg: map[string]int64{}}
@@ -142,7 +142,15 @@ func (c10) Gen(r *sim.Rand, tier string, run uint64) *sim.Scenario {
 			client := sim.PickInt(r, 0, 0, 0, 1, 1, 2, 3) // raw, bufio, io.Copy into the library's writer, source aliasing the image
 			ops = append(ops, sim.Op{K: "write", N: []int64{int64(id), int64(client)}, B: r.Bytes(l)})
 		} else {
-			ops = append(ops, sim.Op{K: "read", N: []int64{int64(id), int64(l), int64(r.Intn(6))}})
+			// clients 0-5 consume through Read; 6-9 use the optional interfaces the returned
+			// reader may offer (io.Seeker, io.ReaderAt, io.ByteScanner, io.WriterTo into a sink
+			// that fails part-way): third value = an offset / fault position for those
+			client := r.Intn(6)
+			if r.Chance(1, 4) {
+				client = 6 + r.Intn(4)
+			}
+			aux := int64(sim.PickInt(r, 0, 0, 1, -1, 2, l, -l, rem, rem+1, -rem, r.Intn(rem+2)))
+			ops = append(ops, sim.Op{K: "read", N: []int64{int64(id), int64(l), int64(client), aux, int64(r.Intn(3))}})
 		}
 		if !s.low && l <= s.remain {
 			s.remain -= l
@@ -352,6 +360,220 @@ func (c checkedWriter) Write(p []byte) (int, error) {
 		return n, io.ErrShortWrite
 	}
 	return n, err
+}
+
+// optionalReaderOp drives one of the optional interfaces the library's reader may implement
+// (bytes.Reader has them all). Their io contracts are relative to the stream, which is the
+// bank window: no offset may lead before its first byte or deliver a byte beyond its end.
+func (w *c10world) optionalReaderOp(s *c10stream, client, l int, aux int64, whence int) {
+	st, env := w.st, w.env
+	winLen := int64(s.end - s.start)
+	cur := int64(s.pos - s.start)
+	switch client {
+	case 6:
+		sk, ok := s.r.(io.Seeker)
+		if !ok {
+			return
+		}
+		var want int64
+		switch whence {
+		case io.SeekStart:
+			want = aux
+		case io.SeekCurrent:
+			want = cur + aux
+		default:
+			whence = io.SeekEnd
+			want = winLen + aux
+		}
+		var abs int64
+		var err error
+		if p, pv := sim.RecoverLib(func() { abs, err = sk.Seek(aux, whence) }); p {
+			w.fail("read_panic", "Seek(%d, %d) panicked: %s", aux, whence, sim.PanicString(pv))
+			return
+		}
+		st.SimOps++
+		env.ObsInt(int(abs))
+		env.ObsBool(err != nil)
+		st.Probe("reader_seek")
+		if err != nil {
+			return // a reader may refuse to seek; its position is then unchanged
+		}
+		if want < 0 {
+			w.fail("read_before_window", "Seek(%d, whence %d) from window offset %d of %d leads before the first byte of the window but succeeded (returned %d)", aux, whence, cur, winLen, abs)
+			return
+		}
+		if abs != want {
+			w.fail("seek_position", "Seek(%d, whence %d) from window offset %d of %d returned %d, want %d (offsets are relative to the bank window)", aux, whence, cur, winLen, abs, want)
+			return
+		}
+		if want > winLen {
+			// beyond the end: legal, reads there give EOF. Park the reader at the end of its
+			// window so that the model's position stays inside it.
+			st.Probe("reader_seek_past_end")
+			buf := make([]byte, 1)
+			var n int
+			var rerr error
+			sim.RecoverLib(func() { n, rerr = s.r.Read(buf) })
+			if n != 0 || rerr != io.EOF {
+				w.fail("read_beyond_window", "Read after Seek to window offset %d of %d returned (%d, %v), want (0, EOF)", want, winLen, n, rerr)
+				return
+			}
+			want = winLen
+			sim.RecoverLib(func() { _, err = sk.Seek(winLen, io.SeekStart) })
+			if err != nil {
+				s.skip = true
+				return
+			}
+		}
+		s.pos = s.start + int(want)
+		s.eofSeen = false
+		st.MarkNontrivial()
+	case 7:
+		ra, ok := s.r.(io.ReaderAt)
+		if !ok {
+			return
+		}
+		if l > 4096 {
+			l = 4096
+		}
+		buf := make([]byte, l)
+		var n int
+		var err error
+		if p, pv := sim.RecoverLib(func() { n, err = ra.ReadAt(buf, aux) }); p {
+			w.fail("read_panic", "ReadAt(%d bytes, %d) panicked: %s", l, aux, sim.PanicString(pv))
+			return
+		}
+		st.SimOps++
+		env.ObsInt(n)
+		env.ObsBool(err != nil)
+		st.Probe("reader_readat")
+		if aux < 0 {
+			if err == nil || n != 0 {
+				w.fail("read_before_window", "ReadAt(%d bytes, offset %d) returned (%d, %v): a negative offset lies before the window", l, aux, n, err)
+			}
+			return
+		}
+		want := 0
+		if aux < winLen {
+			want = int(winLen - aux)
+			if want > l {
+				want = l
+			}
+		}
+		if n != want || (n < l && err == nil) {
+			w.fail("readat_result", "ReadAt(%d bytes, offset %d) on a window of %d bytes returned (%d, %v), want %d bytes%s", l, aux, winLen, n, err, want, map[bool]string{true: " and an error", false: ""}[want < l])
+			return
+		}
+		for i := 0; i < n; i++ {
+			if buf[i] != w.model[s.start+int(aux)+i] {
+				w.fail("read_data", "ReadAt(offset %d) delivered %02x at window offset %d, image holds %02x at file offset %#x", aux, buf[i], int(aux)+i, w.model[s.start+int(aux)+i], s.start+int(aux)+i)
+				return
+			}
+		}
+		if n > 0 && int(aux)+n == int(winLen) {
+			st.MarkNontrivial()
+		}
+	case 8:
+		bs, ok := s.r.(io.ByteScanner)
+		if !ok {
+			return
+		}
+		var err error
+		if p, pv := sim.RecoverLib(func() { err = bs.UnreadByte() }); p {
+			w.fail("read_panic", "UnreadByte panicked: %s", sim.PanicString(pv))
+			return
+		}
+		st.SimOps++
+		env.ObsBool(err != nil)
+		st.Probe("reader_unreadbyte")
+		if err != nil {
+			return
+		}
+		if s.pos <= s.start {
+			w.fail("read_before_window", "UnreadByte at the first byte of the window succeeded: the next read would deliver file offset %#x, below the window", s.start-1)
+			return
+		}
+		s.pos--
+		s.eofSeen = false
+		// and the byte comes again
+		var b byte
+		if p, _ := sim.RecoverLib(func() { b, err = bs.ReadByte() }); p || err != nil || b != w.model[s.pos] {
+			w.fail("read_data", "ReadByte after UnreadByte at file offset %#x: (%02x, %v), image holds %02x", s.pos, b, err, w.model[s.pos])
+			return
+		}
+		s.pos++
+	case 9:
+		wt, ok := s.r.(io.WriterTo)
+		if !ok {
+			return
+		}
+		remaining := s.end - s.pos
+		k := int(aux)
+		if k < 0 {
+			k = -k
+		}
+		dst := &limitedSink{room: k}
+		var n int64
+		var err error
+		if p, pv := sim.RecoverLib(func() { n, err = wt.WriteTo(dst) }); p {
+			w.fail("read_panic", "WriteTo panicked: %s", sim.PanicString(pv))
+			return
+		}
+		st.SimOps++
+		env.ObsInt(int(n))
+		env.ObsBool(err != nil)
+		env.ObsBytes(dst.b)
+		st.Probe("reader_writeto_faulty_sink")
+		if dst.refused {
+			st.Fault("destination_refused")
+			env.FaultYield("op")
+		}
+		if len(dst.b) > remaining || int(n) != len(dst.b) {
+			w.fail("writeto_result", "WriteTo with %d bytes left into a destination that took %d bytes reported %d bytes", remaining, len(dst.b), n)
+			return
+		}
+		for i, bb := range dst.b {
+			if bb != w.model[s.pos+i] {
+				w.fail("read_data", "WriteTo delivered %02x for file offset %#x, image holds %02x", bb, s.pos+i, w.model[s.pos+i])
+				return
+			}
+		}
+		if !dst.refused && (len(dst.b) != remaining || err != nil) {
+			w.fail("reader_total", "WriteTo into a willing destination delivered %d of %d bytes, err %v", len(dst.b), remaining, err)
+			return
+		}
+		if dst.refused && err == nil {
+			w.fail("writeto_result", "WriteTo: the destination failed after %d bytes but WriteTo reported no error", len(dst.b))
+			return
+		}
+		// the bytes the destination did not take are still to come: the position advances by
+		// what was delivered (checked by the following reads and the end-of-window accounting)
+		s.pos += len(dst.b)
+		if s.pos == s.end && !dst.refused {
+			s.eofSeen = true
+		}
+		st.MarkNontrivial()
+	}
+}
+
+// limitedSink accepts room bytes in all, then fails (a short write with an error).
+type limitedSink struct {
+	room    int
+	b       []byte
+	refused bool
+}
+
+func (d *limitedSink) Write(p []byte) (int, error) {
+	if len(p) <= d.room {
+		d.b = append(d.b, p...)
+		d.room -= len(p)
+		return len(p), nil
+	}
+	n := d.room
+	d.b = append(d.b, p[:n]...)
+	d.room = 0
+	d.refused = true
+	return n, sim.ErrSink
 }
 
 // plainReader is a source without io.WriterTo, so that io.Copy has to ask the destination.
@@ -616,7 +838,7 @@ func (c c10) Exec(sc *sim.Scenario, env *sim.Env) (viol *sim.Violation) {
 						w.fail("reader_total", "io.Copy from a reader with %d bytes left delivered %d bytes, err %v", remaining, n, err)
 					} else {
 						for i2, bb := range dst.b {
-							if bb != w.model[s.pos+i2] && bb != s.snapshot[s.pos+i2-s.start] {
+							if bb != w.model[s.pos+i2] {
 								w.fail("read_data", "io.Copy delivered %02x for file offset %#x, image holds %02x", bb, s.pos+i2, w.model[s.pos+i2])
 								break
 							}
@@ -625,6 +847,13 @@ func (c c10) Exec(sc *sim.Scenario, env *sim.Env) (viol *sim.Violation) {
 						s.eofSeen = true
 					}
 				}
+			case 6, 7, 8, 9:
+				if s.low {
+					buf := make([]byte, l)
+					_, _ = cr.Read(buf)
+					break
+				}
+				w.optionalReaderOp(s, int(op.Arg(2)), l, op.Arg(3), int(op.Arg(4)))
 			default:
 				buf := make([]byte, l)
 				_, _ = cr.Read(buf)
